@@ -4,6 +4,7 @@ import Starcal.Drv.Ival
 import Starcal.Drv.Tod
 import Starcal.Drv.ByNameDrv
 import Starcal.Drv.RulesDrv
+import Starcal.Drv.SetDrv
 /-! Line-protocol driver: runs the executable definitions of the model (the very
     definitions the theorems are about) on requests read from stdin, one response
     line per request. See DESIGN.md section 10b. -/
@@ -18,6 +19,7 @@ def dispatch (toks : List String) : String :=
   | "byname" :: rest => byNameRequest rest
   | "rules" :: rest => rulesRequest rest
   | "text" :: rest => textRequest rest
+  | "set" :: rest => setRequest rest
   | _ => "bad-request"
 
 partial def loop (inp : IO.FS.Stream) (out : IO.FS.Stream) : IO Unit := do
